@@ -132,7 +132,12 @@ impl Machine {
                 }
                 // Finish this instruction
                 while !self.is_instruction_done() && self.state() == State::Running {
-                    self.raw_mut().trigger_clock_edge()
+                    let before = self.raw.clone();
+                    self.raw_mut().trigger_clock_edge();
+                    // The microprogram hangs on undefined opcodes; do not hang with it
+                    if self.raw == before {
+                        break;
+                    }
                 }
             }
             StepMode::Real => self.raw_mut().trigger_clock_edge(),
